@@ -30,12 +30,12 @@ META = {
 def check(ctx):
     ctx.consult('plssdesc/plss_parse.py', 'plssdesc/plssdesc.py', 'config/layouts.py')
     cl = layout_classes(ctx)
-    _layout_lock(ctx, cl)
-    _once(ctx)
+    ctx.attempt(_layout_lock, cl)
+    ctx.attempt(_once)
     from .c10 import _staging_tables
-    _staging_tables(ctx)
-    _copyall(ctx)
-    _fallback(ctx)
+    ctx.attempt(_staging_tables)
+    ctx.attempt(_copyall)
+    ctx.attempt(_fallback)
 
 
 def _layout_lock(ctx, cl):
